@@ -33,45 +33,249 @@ def rw_retain(m):
             f"ensures b == ({{ let {p} = *{p}_; {body} }}) {{ let {p} = *{p}_; {body} }})")
 
 
-NOW = ("T-CLOCK", r"Instant::now\(\)", "crate::vtime::now(Tracked(&mut *w))")
+NOW = ("T-CLOCK", r"Instant::now\(\)", "crate::vtime::now(Tracked(&mut *w))", None)
+
+
+def contracts():
+    """FnSpecs of this unit's functions, reusable as stubs by other units."""
+    return {
+        "get_sleep_duration": FnSpec(ret="r", sig="""
+    requires self.wf_limits(), //@C19.sleep_pre
+    ensures self.limits@.len() > 0 ==> dur(r) >= 100 * 1_000_000, //@C09.sleep_min
+            dur(r) <= 3_600_000 * 1_000_000nat, //@C09.sleep_max
+""", at=[("before", "let nb_mili", 1, "proof { assert(self.lim()[self.limits@.len() - 1].0 >= 1); }")]),
+        "request_allowed": FnSpec(ret="r", ghost=True, sig="""
+    requires self.wf_limits(),
+    ensures final(w).admissions == old(w).admissions, //@C09.ra_frame
+            final(w).clock >= old(w).clock, //@C09.ra_clock
+            // admitted only if every limit has room, measured at the clock on return
+            r ==> forall|l: int| 0 <= l < self.lim().len() ==>
+                newer(self.log(), final(w).clock - (#[trigger] self.lim()[l]).1).len() < self.lim()[l].0, //@C09.ra_sound
+            // refused only if some limit had no room even over the larger window measured at entry,
+            // or its window start is not representable
+            !r ==> exists|l: int| 0 <= l < self.lim().len() &&
+                (newer(self.log(), old(w).clock - (#[trigger] self.lim()[l]).1).len() >= self.lim()[l].0
+                 || old(w).clock - self.lim()[l].1 < inst_floor()), //@C09.ra_complete
+""", loops={1: """
+    invariant w.admissions == old(w).admissions, w.clock >= old(w).clock, self.wf_limits(),
+        forall|l: int| 0 <= l < iter.index@ ==>
+            newer(self.log(), w.clock - (#[trigger] self.lim()[l]).1).len() < self.lim()[l].0,
+"""},
+            at=[("before", "self.limits.iter()", 1, "iter:"),
+                ("before_stmt", "Instant::now()", 1, "let ghost clock_before = w.clock;"),
+                ("after_stmt", "if nb_req", 1, """
+                    proof {
+                        assert forall|l: int| 0 <= l < iter.index@ + 1 implies
+                            newer(self.log(), w.clock - (#[trigger] self.lim()[l]).1).len() < self.lim()[l].0 by {
+                            lemma_newer_antitone(self.log(), clock_before - self.lim()[l].1, w.clock - self.lim()[l].1);
+                        }
+                    }"""),
+                ("before_stmt", "if nb_req", 1, """
+                    proof {
+                        let l = iter.index@;
+                        assert(self.lim()[l] == ((*max_allowed) as int, dur(*duration) as int));
+                        let p = |t: Instant| inst(t) > inst(max_date);
+                        assert(nb_req == self.query_log@.filter(p).len());
+                        lemma_filter_map(self.query_log@, p, inst_fn(), inst(max_date));
+                        assert(self.query_log@.filter(p).map_values(inst_fn()).len() == self.query_log@.filter(p).len());
+                        assert(nb_req == newer(self.log(), w.clock - self.lim()[l].1).len());
+                        if nb_req >= *max_allowed {
+                            lemma_newer_antitone(self.log(), old(w).clock - self.lim()[l].1, w.clock - self.lim()[l].1);
+                        }
+                    }"""),
+                ("after_open", "None =>", 1, """
+                    proof {
+                        let l = iter.index@;
+                        assert(self.lim()[l] == ((*max_allowed) as int, dur(*duration) as int));
+                        assert(old(w).clock - self.lim()[l].1 < inst_floor());
+                    }"""),
+                ],
+            rewrites=[NOW,
+                      ("T-ITER", r"(?P<v>self\s*\.\s*query_log)\s*\.iter\(\)\s*\.filter\(move \|(?P<p>\w+)\|(?P<body>[^()]*)\)\s*\.count\(\)", rw_filter_count)]),
+        "prune_log": FnSpec(ghost=True, sig="""
+    requires old(self).inv(*old(w)),
+    ensures final(self).inv(*final(w)), //@C09.pl_inv
+            final(w).admissions == old(w).admissions, //@C09.pl_frame
+            final(w).clock >= old(w).clock, //@C09.pl_clock
+            final(self).limits == old(self).limits,
+""", rewrites=[NOW,
+               ("T-ITER", r"(?P<v>self\s*\.\s*query_log)\s*\.retain\(move \|&(?P<p>\w+)\|(?P<body>[^()]*)\)", rw_retain)],
+            at=[("after_stmt", ".retain(", 1, """
+                proof {
+                    let lg0 = old(self).log();
+                    let m = inst(prune_date);
+                    let p = |t: Instant| inst(t) > m;
+                    assert(self.query_log@ == old(self).query_log@.filter(p));
+                    lemma_filter_map(old(self).query_log@, p, inst_fn(), m);
+                    assert(self.log() == newer(lg0, m));
+                    lemma_sorted_skip(old(w).admissions, old(w).admissions.len() - lg0.len());
+                    lemma_filter_suffix(lg0, m);
+                    lemma_newer_suffix(lg0, m);
+                    let adm = w.admissions;
+                    let k0 = adm.len() - lg0.len();
+                    let k1 = adm.len() - self.log().len();
+                    assert(self.lim()[0].1 == dur(*max_limit) as int) by {
+                        assert(self.limits@[0].1 == *max_limit);
+                    }
+                    assert(adm.skip(k1) =~= self.log()) by {
+                        assert(adm.skip(k0) == lg0);
+                        assert(lg0.skip(lg0.len() - self.log().len()) == self.log());
+                        assert forall|i: int| 0 <= i < self.log().len() implies adm.skip(k1)[i] == self.log()[i] by {
+                            assert(adm.skip(k1)[i] == adm[k1 + i]);
+                            assert(lg0[lg0.len() - self.log().len() + i] == adm.skip(k0)[lg0.len() - self.log().len() + i]);
+                        }
+                    }
+                    assert forall|i: int| 0 <= i < k1 implies #[trigger] adm[i] + self.longest() <= w.clock by {
+                        if i >= k0 {
+                            assert(adm[i] == adm.skip(k0)[i - k0]);
+                            assert(lg0[i - k0] <= m);
+                        }
+                    }
+                }""")],
+        ),
+        "block_until_allowed": FnSpec(ghost=True, attrs="#[verifier::exec_allows_no_decreases_clause]", sig="""
+    requires old(self).inv(*old(w)),
+    ensures final(self).inv(*final(w)), //@C09.inv
+            final(w).clock >= old(w).clock, //@C09.clock
+            final(self).lim() == old(self).lim(), //@C09.limits_frame
+            // exactly one admission is recorded per call (none when no limit is configured)
+            old(self).lim().len() == 0 ==> final(w).admissions == old(w).admissions, //@C09.no_limits
+            old(self).lim().len() > 0 ==> final(w).admissions == old(w).admissions.push(final(w).clock), //@C09.one_admission
+""", loops={1: """
+    invariant self.inv(*w), w.clock >= old(w).clock, self.limits == old(self).limits,
+        w.admissions == old(w).admissions, self.limits@.len() > 0,
+"""},
+            rewrites=[NOW],
+            at=[("after_open", "if self.request_allowed", 1, """
+                let ghost pre_self = *self;
+                let ghost pre_w = *w;
+"""),
+                ("before_stmt", "return;", 2, """
+                proof {
+                    let t = w.clock;
+                    let adm0 = pre_w.admissions;
+                    w.admissions = adm0.push(t);
+                    pre_self.lemma_admit(pre_w, t);
+                    assert(self.log() =~= pre_self.log().push(t));
+                    assert(self.lim() == pre_self.lim());
+                    // suffix relation
+                    let k = adm0.len() - pre_self.log().len();
+                    assert(w.admissions.skip(k) =~= self.log()) by {
+                        assert(adm0.skip(k) == pre_self.log());
+                        assert forall|i: int| 0 <= i < self.log().len() implies w.admissions.skip(k)[i] == self.log()[i] by {
+                            if i < pre_self.log().len() {
+                                assert(adm0.skip(k)[i] == adm0[k + i]);
+                            }
+                        }
+                    }
+                }"""),
+                ]),
+        "new": FnSpec(ret="r", sig="""
+    ensures r matches Ok(rl) ==> rl.wf_limits() && rl.log().len() == 0, //@C09.new_wf,C19.new_wf
+""", loops={1: """
+    invariant all_positive(limits@),
+"""},
+            rewrites=[("T-ITER", r"limits\.sort_by\(\|a, b\| a\.1\.partial_cmp\(&b\.1\)\.unwrap\(\)\)",
+                       "crate::titer::sort_by_duration_asc(&mut limits)")]),
+    }
 
 
 def build():
     u = Unit("ratelimit", "acmed")
-    u.prelude("err", "time", "world_rl")
+    u.prelude("err", "time", "world_rl", "seqlemmas")
     u.ghost_call("sleep", quals=("",))
     u.take("acmed/src/main.rs", "MAX_RATE_LIMIT_SLEEP_MILISEC", "")
     u.take("acmed/src/main.rs", "MIN_RATE_LIMIT_SLEEP_MILISEC", "")
     u.module("endpoint", "use crate::*;\nuse crate::acme_common::error::Error;\nuse std::cmp;\n"
-             "use std::time::{Duration, Instant};\nuse crate::vtime::sleep;")
+             "use std::time::{Duration, Instant};\nuse crate::vtime::sleep;\nuse crate::seqlemmas::*;\n"
+             "use crate::duration::parse_duration;")
+    u.module("duration", "use crate::acme_common::error::Error;\nuse std::time::Duration;")
+    u.raw("duration", """
+#[verifier::external_body]
+pub fn parse_duration(input: &str) -> Result<Duration, Error> { unimplemented!() }
+""", trusted=True)
     u.drop_derives = {"Clone", "Debug"}
     u.take(SRC, "RateLimit", "endpoint")
     u.raw("endpoint", SPEC)
-    u.verify(SRC, "RateLimit::get_sleep_duration", "endpoint", props=["C09", "C19"], fns={
-        "get_sleep_duration": FnSpec(ret="r", sig="""
-    requires self.wf_limits(), //@C19.rl_wf
-    ensures dur(r) >= 100 * 1_000_000, //@C09.sleep_min
-            dur(r) <= 3_600_000 * 1_000_000nat, //@C09.sleep_max
-""")})
-    u.verify(SRC, "RateLimit::request_allowed", "endpoint", props=["C09"], fns={
-        "request_allowed": FnSpec(ret="r", ghost=True, sig="""
-    ensures final(w).admissions == old(w).admissions, //@C09.ra_frame
-            final(w).clock >= old(w).clock, //@C09.ra_clock
-""", loops={1: "invariant w.admissions == old(w).admissions, w.clock >= old(w).clock,"},
-            rewrites=[NOW,
-                      ("T-ITER", r"(?P<v>self\s*\.\s*query_log)\s*\.iter\(\)\s*\.filter\(move \|(?P<p>\w+)\|(?P<body>[^()]*)\)\s*\.count\(\)", rw_filter_count)])})
-    u.verify(SRC, "RateLimit::prune_log", "endpoint", props=["C09"], fns={
-        "prune_log": FnSpec(ghost=True, sig="""
-    ensures final(w).admissions == old(w).admissions, //@C09.pl_frame
-""", rewrites=[NOW,
-               ("T-ITER", r"(?P<v>self\s*\.\s*query_log)\s*\.retain\(move \|&(?P<p>\w+)\|(?P<body>[^()]*)\)", rw_retain)])})
+    c = contracts()
+    for name, props in [("new", ["C09", "C19"]), ("get_sleep_duration", ["C09", "C19"]), ("request_allowed", ["C09"]),
+                        ("prune_log", ["C09"]), ("block_until_allowed", ["C09"])]:
+        u.verify(SRC, f"RateLimit::{name}", "endpoint", props=props, fns={name: c[name]})
     return u
 
 
 SPEC = """
+pub open spec fn inst_fn() -> spec_fn(Instant) -> int { |i: Instant| inst(i) }
+pub open spec fn lim_fn() -> spec_fn((usize, Duration)) -> (int, int) { |p: (usize, Duration)| (p.0 as int, dur(p.1) as int) }
+pub open spec fn all_positive(s: Seq<(usize, Duration)>) -> bool {
+    forall|i: int| 0 <= i < s.len() ==> (#[trigger] s[i]).0 >= 1
+}
 impl RateLimit {
+    // (n, period in nanoseconds) of every configured limit
+    pub closed spec fn lim(&self) -> Seq<(int, int)> {
+        self.limits@.map_values(lim_fn())
+    }
+    // the log as nanosecond instants
+    pub closed spec fn log(&self) -> Seq<int> {
+        self.query_log@.map_values(inst_fn())
+    }
     pub closed spec fn wf_limits(&self) -> bool {
-        forall|i: int| 0 <= i < self.limits@.len() ==> (#[trigger] self.limits@[i]).0 >= 1
+        &&& forall|i: int| 0 <= i < self.lim().len() ==> (#[trigger] self.lim()[i]).0 >= 1
+        &&& forall|i: int, j: int| 0 <= i <= j < self.lim().len() ==> (#[trigger] self.lim()[i]).1 >= (#[trigger] self.lim()[j]).1
+    }
+    pub closed spec fn longest(&self) -> int {
+        if self.lim().len() > 0 { self.lim()[0].1 } else { 0 }
+    }
+    // The data-structure invariant of C09: w.admissions is the never-pruned history of the log.
+    pub closed spec fn inv(&self, w: World) -> bool {
+        &&& self.wf_limits()
+        &&& sorted(w.admissions)
+        &&& forall|i: int| 0 <= i < w.admissions.len() ==> #[trigger] w.admissions[i] <= w.clock
+        &&& self.log().len() <= w.admissions.len()
+        &&& w.admissions.skip(w.admissions.len() - self.log().len()) == self.log()
+        &&& forall|i: int| 0 <= i < w.admissions.len() - self.log().len() ==> #[trigger] w.admissions[i] + self.longest() <= w.clock
+        &&& forall|l: int| 0 <= l < self.lim().len() ==> spaced(w.admissions, (#[trigger] self.lim()[l]).0, self.lim()[l].1)
+    }
+
+    // C09, the statement itself: under the invariant no window (t - period, t] holds more than n admissions.
+    pub proof fn lemma_c09_window(&self, w: World, l: int, t: int, i: int, j: int)
+        requires self.inv(w), 0 <= l < self.lim().len(), 0 <= i, i + self.lim()[l].0 <= j < w.admissions.len(),
+        ensures !(t - self.lim()[l].1 < w.admissions[i] && w.admissions[j] <= t), //@C09.window
+    {
+        lemma_window(w.admissions, self.lim()[l].0, self.lim()[l].1, t, i, j);
+    }
+
+    pub proof fn lemma_inv_facts(&self, w: World)
+        requires self.inv(w)
+        ensures self.wf_limits()
+    {}
+
+    // the invariant is stable under the passing of time
+    pub proof fn lemma_inv_clock(&self, w0: World, w1: World)
+        requires self.inv(w0), w1.admissions == w0.admissions, w1.clock >= w0.clock
+        ensures self.inv(w1)
+    {}
+
+    // the admission step: every limit has room at clock c <= t, t appended
+    pub proof fn lemma_admit(&self, w: World, t: int)
+        requires self.inv(w), t >= w.clock,
+            forall|l: int| 0 <= l < self.lim().len() ==>
+                newer(self.log(), w.clock - (#[trigger] self.lim()[l]).1).len() < self.lim()[l].0,
+        ensures sorted(w.admissions.push(t)),
+            forall|l: int| 0 <= l < self.lim().len() ==> spaced(w.admissions.push(t), (#[trigger] self.lim()[l]).0, self.lim()[l].1),
+    {
+        let adm = w.admissions;
+        let k = adm.len() - self.log().len();
+        assert forall|l: int| 0 <= l < self.lim().len() implies spaced(adm.push(t), (#[trigger] self.lim()[l]).0, self.lim()[l].1) by {
+            let n = self.lim()[l].0;
+            let d = self.lim()[l].1;
+            let m = w.clock - d;
+            assert(d <= self.longest());
+            // the pruned prefix is older than every window, so it counts for nothing
+            lemma_newer_skip(adm, k, m);
+            lemma_push(adm, n, d, w.clock, t);
+        }
+        assert(sorted(adm.push(t)));
     }
 }
 """
